@@ -20,6 +20,7 @@ BUILD = buildlib.BUILD
 U16 = [0, 1, 2, 3, 255, 256, 1023, 1024, 8190, 8191, 8192, 8193, 16382, 16383, 16384, 16385, 32767, 32768, 49151, 49152, 65534, 65535]
 I32 = [-(1 << 30), -70000, -1025, -1024, -1023, -513, -512, -511, -2, -1, 0, 1, 2, 510, 511, 512, 513, 1022, 1023, 1024, 1025, 1535, 1536, 1537, 2047, 2048, 4095, 4096,
        (1 << 21) - 1, 1 << 21, (1 << 21) + 1, (1 << 30) - 1, 1 << 30]
+S14 = [0, 1, 2, 8191, 8192, 8193, 16382, 16383]
 CHSEQ = list(range(0, 1024, 37)) + [0, 1, 511, 512, 513, 1022, 1023]
 SIZES = [0, 1, 2, 7, 8, 9, 15, 16, 17, 100, 308, 309, 310, 327, 1000, 7264, 7265, 7844, 7845, 8190, 8191, 8192, 8193, 65535, 524288]
 EXT = [0, 1, 7263, 7264, 7265, 7266, 14527, 14528, 14529, 21791, 21792, 7264 * 9 + 7257, 7264 * 9 + 7263, 7264 * 10, 524287, 524288, (1 << 28) - 1]
@@ -31,6 +32,8 @@ CASES = {
     "seq_num_greater_equal": ("seq_num_greater_equal((uint16_t)%d,(uint16_t)%d)", [U16, U16]),
     "seq_num_inc": ("seq_num_inc((uint16_t)%d,(uint16_t)%d)", [U16, U16]),
     "seq_num_diff": ("seq_num_diff((uint16_t)%d,(uint16_t)%d)", [U16, U16]),
+    "packet_notify_delta_seq": ("(probe_nh.Seq=%d, probe_pn.InSeq=%d, probe_nh.AckedSeq=%d, probe_pn.OutAckSeq=%d, probe_pn.OutSeq=%d, packet_notify_delta_seq(&probe_pn,&probe_nh))",
+                                [S14, S14, S14, S14, S14]),
     "BestSignedDifference_chseq": ("BestSignedDifference(%d,%d,UTCP_MAX_CHSEQUENCE)", [CHSEQ, I32]),
     "MakeRelative_chseq": ("MakeRelative(%d,%d,UTCP_MAX_CHSEQUENCE)", [CHSEQ, I32]),
     "GetFreeSendBufferBits": ("(probe_conn.SendBufferBitsNum=%d, GetFreeSendBufferBits(&probe_conn))", [[s for s in SIZES if s <= 8200]]),
@@ -109,7 +112,7 @@ def run(stamp):
     src = os.path.join(BUILD, "transval_%d.c" % os.getpid())
     exe = os.path.join(BUILD, "transval_%d.exe" % os.getpid())
     with open(src, "w") as f:
-        f.write('#include <stdio.h>\n#include "%s"\nstatic struct utcp_connection probe_conn;\nint main(void){\n' % os.path.join(REPO, "utcp/utcp_packet.c"))
+        f.write('#include <stdio.h>\n#include "%s"\nstatic struct utcp_connection probe_conn;\nstatic struct packet_notify probe_pn;\nstatic struct notification_header probe_nh;\nint main(void){\n' % os.path.join(REPO, "utcp/utcp_packet.c"))
         f.write("\n".join(c_lines))
         f.write("\n  return 0;\n}\n")
     others = [s for s in sorted(glob.glob(os.path.join(REPO, "utcp/*.c")) + glob.glob(os.path.join(REPO, "utcp/3rd/*.c"))) if not s.endswith("/utcp_packet.c")]
